@@ -11,6 +11,7 @@ length), every placement of the handler's subscription in it — replay read aft
 older events and duplicates following the replayed one —, synchronous and asynchronous, both handlers.
 -/
 import OnosVerif.Proofs.Wait
+import OnosVerif.Proofs.Watch
 
 namespace OnosVerif.Props.C08
 open OnosVerif.NB.Wait
@@ -83,6 +84,42 @@ theorem C08_no_results_without_success (h : Handler) (requested : TxSync) (path 
   | ok => rw [ho] at hno; cases h <;> exact absurd rfl hno
   | err e => cases h <;> rfl
   | ctxDone => cases h <;> rfl
+
+/-! ## the subscribe step loses no final event
+
+The theorems above are about what the handler is SHOWN; that the latest status is among it (`last_shown`) is the
+watch semantics of the store the handlers subscribe to — the v2 transaction store — and rests on the shape of its
+`Watch`, regenerated on every run. -/
+
+/-- regenerated: `Watch` of the v2 transaction store puts the listener into the dispatcher's maps before it returns, on
+    every path (with `WithReplay()` too), and before the replay reads the current state. -/
+theorem C08_subscribe_registers_first : (OnosVerif.Store.Watch.codeCfg .tx2).registerFirst = true := by decide
+
+/-- The subscribe step loses no final event: in every reachable state of the v2 transaction store's watch machine (any
+    interleaving of the controllers' writes with the handler's `Watch(WithReplay, WithTransactionID id)`, its replay
+    read and its deliveries, other watchers doing whatever they do), once the dispatcher has caught up and the
+    handler's goroutine sits in its forward loop, the last status the handler was shown of its transaction is the
+    stored one — so a transaction that has finished has been shown finished, and `C08_always_answers` applies. -/
+theorem C08_subscribe_loses_no_final_event (s : OnosVerif.Store.Watch.St)
+    (hr : OnosVerif.Store.Watch.Reachable (OnosVerif.Store.Watch.codeCfg .tx2) s)
+    (hd : s.disp = .idle) (hp : s.dpos = s.evs.length)
+    (i : Nat) (w : OnosVerif.Store.Watch.Watcher) (hw : s.ws[i]? = some w) (hloop : w.phase = .loop) (hq : w.queue = [])
+    (id : OnosVerif.Store.Key) (hkey : w.key = some id) (hrep : w.replay = true) :
+    OnosVerif.Store.Watch.lastFor id w.delivered = OnosVerif.Store.Watch.lastFor id s.evs := by
+  have hi := OnosVerif.Store.Watch.inv_reachable _ C08_subscribe_registers_first s hr
+  have hc : OnosVerif.Store.Watch.covers w id = true := by
+    unfold OnosVerif.Store.Watch.covers; rw [hkey]; simp
+  exact (OnosVerif.Store.Watch.sees_latest_of_inv _ s hi hd hp i w hw hloop hq id hc).1 hrep
+
+/-- … and with the registration behind the replay (the same machine, `registerFirst := false`) a finishing write that
+    lands between the replay read and the registration is never shown: the handler's last status stays the replayed one. -/
+example : ∃ s, OnosVerif.Store.Watch.run { OnosVerif.Store.Watch.idealCfg with registerFirst := false } {}
+      [.write ['t'], .pick, .watch (some ['t']) true, .replayRead 0, .write ['t'], .pick, .deliver 0] = some s ∧
+    s.disp = .idle ∧ s.dpos = s.evs.length ∧
+    (s.ws[0]?).map (fun w => OnosVerif.Store.Watch.lastFor ['t'] w.delivered) = some (some 1) ∧
+    OnosVerif.Store.Watch.lastFor ['t'] s.evs = some 2 := by
+  refine ⟨_, rfl, ?_⟩
+  decide
 
 /-- a rollback is created synchronous (regenerated), so it is answered on APPLIED or FAILED only. -/
 theorem C08_rollback_is_synchronous (requested : TxSync) : effectiveSync .rollback requested = .synchronous := by
